@@ -42,6 +42,26 @@ def expected_ctr_ks(spec, nbytes):
     return ks[:nbytes]
 
 
+def keystream_matches(spec, start, data, chunk=1 << 20):
+    """True iff `data` is the key stream of byte positions start.. (integer counter model through libcrypto ECB), compared chunk by chunk
+    so that a 256 MiB stream never exists twice in memory."""
+    bs = oracles.BLOCK[spec["cipher"]]
+    f = sym.ctr_blocks(spec)
+    enc, _ = lc.make_ecb(oracles.LC_NAME[spec["cipher"]], spec["key"],
+                         rc2_effective_bits=spec.get("ek", 1024) if spec["cipher"] == "ARC2" else None)
+    mv = memoryview(data)
+    off = 0
+    while off < len(mv):
+        n = min(chunk, len(mv) - off)
+        a = start + off
+        lo, hi = a // bs, (a + n + bs - 1) // bs
+        ks = enc(b"".join(f(i) for i in range(lo, hi)))
+        if ks[a - lo * bs: a - lo * bs + n] != mv[off:off + n]:
+            return False
+        off += n
+    return True
+
+
 # ------------------------------------------------------------------ CTR layouts and wrap through zero
 @st.composite
 def strat_ctr(draw, tier):
@@ -83,9 +103,9 @@ def run_ctr(case, rec):
 def strat_ctr_limit(draw, tier):
     cipher = draw(st.sampled_from(["AES", "AES", "DES", "DES3", "Blowfish", "CAST", "ARC2"]))
     bs = oracles.BLOCK[cipher]
-    clen = draw(st.sampled_from([1, 1, 1, 2] if tier == "quick" else [1, 1, 2, 2, 3]))
-    if clen == 3 and cipher != "AES":
-        clen = 2
+    clen = draw(st.sampled_from([1, 1, 1, 2] if tier == "quick" else [1, 1, 2, 2]))
+    if tier != "quick" and cipher == "AES" and draw(st.integers(0, 29)) == 0:
+        clen = 3            # 2^24 blocks = 256 MiB per case: rare
     spec = {"kind": "block", "cipher": cipher, "mode": "CTR", "key": draw(sym.key_for(cipher))}
     if cipher == "ARC2":
         spec["ek"] = 1024
@@ -124,9 +144,11 @@ def run_ctr_limit(case, rec):
     else:
         calls = [max(0, first - 3)] + [1] * min(3, first)
     calls += case["more"]
+    info = {"spec": spec, "calls": calls, "limit": limit}
+    if limit > (8 << 20):
+        return run_ctr_limit_streaming(case, rec, spec, meth, calls, limit, label, clen, bs, info)
     produced = b""
     failed = False
-    info = {"spec": spec, "calls": calls, "limit": limit}
     for n in calls:
         kind, r = libcall(meth, bytes(n), allowed=(OverflowError,), bucket="ctr/%s/limit" % label)
         would = len(produced) + n
@@ -152,6 +174,34 @@ def run_ctr_limit(case, rec):
     blocks = ks_blocks(produced, bs)
     if len(set(blocks)) != len(blocks):
         raise Violation("ctr/%s/repeated-keystream-block" % label, "a keystream block was produced twice before the limit", **info)
+    rec.nt(label, clen, spec["ctr"]["form"], spec["ctr"].get("little"), case["rel"], case["split"], failed)
+    rec.event("ctr-limit:%s:clen%d:%s" % (case["rel"], clen, "failed" if failed else "ok"))
+    rec.sample({"cipher": spec["cipher"], "clen": clen, "rel": case["rel"], "split": case["split"], "calls": calls})
+
+
+def run_ctr_limit_streaming(case, rec, spec, meth, calls, limit, label, clen, bs, info):
+    """Same verdicts as run_ctr_limit for limits of hundreds of MiB: every returned piece is compared with the key stream of its position as
+    it arrives (which also rules out a repeated block: the counter blocks of distinct positions are distinct by construction)."""
+    pos = 0
+    failed = False
+    for n in calls:
+        kind, r = libcall(meth, bytes(n), allowed=(OverflowError,), bucket="ctr/%s/limit" % label)
+        would = pos + n
+        if failed:
+            if kind == "ok" and n > 0:
+                raise Violation("ctr/%s/keystream-after-failure" % label, "a call after the OverflowError returned %d bytes" % len(r), **info)
+            continue
+        if would > limit:
+            if kind == "ok":
+                raise Violation("ctr/%s/limit-not-enforced" % label, "%d bytes obtained from a %d-byte counter (limit %d bytes)" % (would, clen, limit), **info)
+            failed = True
+            continue
+        if kind == "exc":
+            raise Violation("ctr/%s/limit-too-early" % label, "OverflowError after only %d of %d obtainable bytes" % (would, limit), **info)
+        if not keystream_matches(spec, pos, r):
+            raise Violation("ctr/%s/wrong-keystream-before-limit" % label, "data returned before the failure is not the keystream of its position", **info)
+        pos = would
+        del r
     rec.nt(label, clen, spec["ctr"]["form"], spec["ctr"].get("little"), case["rel"], case["split"], failed)
     rec.event("ctr-limit:%s:clen%d:%s" % (case["rel"], clen, "failed" if failed else "ok"))
     rec.sample({"cipher": spec["cipher"], "clen": clen, "rel": case["rel"], "split": case["split"], "calls": calls})
